@@ -139,8 +139,17 @@ fn register_hooks() {
     });
 }
 
+/// A pair the module hands out must vouch for its base time, and must be
+/// accepted by `VouchedTime`'s own check for a local time equal to the base
+/// (whenever that time is representable).
 fn voucher_ok(base: u64, voucher: raffle::Voucher) -> bool {
-    VOUCH.checking_parameters().check(base, voucher)
+    if !VOUCH.checking_parameters().check(base, voucher) {
+        return false;
+    }
+    if (base as i128) <= MAX_MS {
+        return VouchedTime::check(to_primitive(base as i128), base, voucher).is_ok();
+    }
+    true
 }
 
 fn push_v(vs: &mut Vec<Violation>, prop: &'static str, inv: &str, detail: String, at: usize) {
@@ -547,8 +556,12 @@ fn c14_op(op: &Op, i: usize, stats: &mut Stats, log: &mut LogHash, vs: &mut Vec<
         let (voucher, valid) = voucher_for(if kind == 0 { 0 } else { a[2] }, base);
         let seen = std::cell::Cell::new(None);
         let fails = kind == 5;
+        // A slow time source: simulated time passes while the provider runs.  The
+        // reading taken before the call is the one that counts.
+        let latency = [0i128, 0, 100, 1_500, 3_200, 61_000][(a[3] % 6) as usize];
         let got = VouchedTime::now(|t: time::OffsetDateTime| {
             seen.set(Some(t));
+            state().now_ms += latency;
             if fails {
                 Err(std::io::Error::new(std::io::ErrorKind::TimedOut, "sim time source down"))
             } else {
